@@ -23,6 +23,10 @@ var Ref = Type("Ref", func() {
 	Required("a")
 })
 
+var Named = Type("Named", func() {
+	Attribute("name", String, func() { MaxLength(6) })
+})
+
 var _ = Service("svc", func() {
 	// required lists of two bases that share a name
 	Method("merge", func() {
@@ -43,5 +47,28 @@ var _ = Service("svc", func() {
 			Required("a", "b", "c")
 		})
 		HTTP(func() { POST("/restate") })
+	})
+	// an inherited attribute that already has a validation, re-declared with
+	// different validations by two payloads; a third uses the base as it is
+	Method("ra", func() {
+		Payload(func() {
+			Reference(Named)
+			Attribute("name", func() { MaxLength(4) })
+		})
+		HTTP(func() { POST("/ra") })
+	})
+	Method("rb", func() {
+		Payload(func() {
+			Reference(Named)
+			Attribute("name", func() {
+				MinLength(2)
+				MaxLength(8)
+			})
+		})
+		HTTP(func() { POST("/rb") })
+	})
+	Method("rc", func() {
+		Payload(Named)
+		HTTP(func() { POST("/rc") })
 	})
 })
